@@ -8,7 +8,7 @@ use std::fmt;
 const SPEC: Spec = Spec {
     id: "C17",
     engine: "E-prod (exhaustive enumeration of values through a recording Serializer, and of token sequences x size hints x sign tokens through a token-replay Deserializer; serde_json as a second, real format)",
-    rule: "serialize: every value of +-Dense(S32,3) must emit exactly seq(len = number of base-2^32 digits){u32...} without trailing zero digit (zero = empty sequence), BigInt as tuple(2){i8 sign in -1/0/1, that sequence}; deserialize: every u32 sequence over {0,1,2^32-1} up to the length bound x 5 size-hint behaviours (x all 256 i8 sign tokens for BigInt) must yield the canonical value it denotes, invalid signs and ill-typed elements must be rejected with an error (no panic); deserialize(serialize(x)) == x through the recorder and through serde_json; non-trivial = value >= 2^32 (serialize) / sequence with trailing zeros, odd length or inconsistent sign (deserialize)",
+    rule: "serialize: every value of +-Dense(S32,3) must emit exactly seq(len = number of base-2^32 digits){u32...} without trailing zero digit (zero = empty sequence), BigInt as tuple(2){i8 sign in -1/0/1, that sequence}; deserialize: every u32 sequence over {0,1,2^32-1} up to the length bound x 5 size-hint behaviours x 2 format kinds (human-readable / compact, as reported by is_human_readable) (x all 256 i8 sign tokens for BigInt) must yield the canonical value it denotes, invalid signs and ill-typed elements must be rejected with an error (no panic); deserialize(serialize(x)) == x through the recorder and through serde_json; non-trivial = value >= 2^32 (serialize) / sequence with trailing zeros, odd length or inconsistent sign (deserialize)",
     assumptions: &[
         "token sequences are bounded in length; the 3-letter word alphabet {0,1,2^32-1} generates trailing zeros, odd/even lengths and full high halves",
         "two formats: the harness's own recorder/replayer (exact token-level control incl. absent or wrong size hints) and serde_json",
@@ -53,6 +53,19 @@ enum Tok {
     Other(&'static str),
 }
 
+/// Format kind presented to the library: true = human-readable (JSON-like, serde's default), false = compact binary
+/// (bincode-like).  Both the recorder and the replayer report it through `is_human_readable`.
+static HUMAN_READABLE: std::sync::atomic::AtomicBool = std::sync::atomic::AtomicBool::new(true);
+fn hr() -> bool {
+    HUMAN_READABLE.load(std::sync::atomic::Ordering::Relaxed)
+}
+fn kind() -> &'static str {
+    if hr() {
+        ""
+    } else {
+        " format=compact(non-human-readable)"
+    }
+}
 // ------------------------------------------------------------------ recording serializer
 struct Rec<'a> {
     out: &'a mut Vec<Tok>,
@@ -66,6 +79,9 @@ macro_rules! other {
     };
 }
 impl<'a> ser::Serializer for Rec<'a> {
+    fn is_human_readable(&self) -> bool {
+        hr()
+    }
     type Ok = ();
     type Error = Err_;
     type SerializeSeq = RecSeq<'a>;
@@ -247,6 +263,9 @@ impl<'t> TokDe<'t> {
 }
 impl<'de, 'a, 't> de::Deserializer<'de> for &'a mut TokDe<'t> {
     type Error = Err_;
+    fn is_human_readable(&self) -> bool {
+        hr()
+    }
     fn deserialize_any<V: Visitor<'de>>(self, visitor: V) -> Result<V::Value, Err_> {
         match self.next()? {
             Tok::U32(v) => visitor.visit_u32(v),
@@ -325,6 +344,16 @@ fn same_stream(got: &Out<Result<Vec<Tok>, String>>, want: &[Tok]) -> bool {
         (Tok::I64(a), Tok::I8(b)) => *a == *b as i64,
         (a, b) => a == b,
     })
+}
+/// runs `f` once as a human-readable format and once as a compact (non-human-readable) one
+fn both_kinds(ctx: &mut Ctx, mut f: impl FnMut(&mut Ctx)) {
+    for h in [true, false] {
+        HUMAN_READABLE.store(h, std::sync::atomic::Ordering::Relaxed);
+        ctx.key_suffix = kind().to_string();
+        f(ctx);
+    }
+    HUMAN_READABLE.store(true, std::sync::atomic::Ordering::Relaxed);
+    ctx.key_suffix.clear();
 }
 fn seq_tokens(w: &[u32], declared: Option<usize>) -> Vec<Tok> {
     let mut t = vec![Tok::Seq(declared)];
@@ -510,10 +539,12 @@ fn body(ctx: &mut Ctx) {
             if !ctx.mine(i as u64) {
                 continue;
             }
-            ser_value(ctx, &Int::new(false, n.clone()));
-            if !n.is_zero() {
-                ser_value(ctx, &Int::new(true, n.clone()));
-            }
+            both_kinds(ctx, |ctx| {
+                ser_value(ctx, &Int::new(false, n.clone()));
+                if !n.is_zero() {
+                    ser_value(ctx, &Int::new(true, n.clone()));
+                }
+            });
             ctx.sample(|| format!("v=+-{}: recorded tokens, replay with 5 size hints, serde_json text and round trip", n.to_hex()));
         }
     }
@@ -521,7 +552,7 @@ fn body(ctx: &mut Ctx) {
     if ctx.space("D1") {
         let maxlen = tier.pick(7, 9);
         let mut o = 0u64;
-        de_words(ctx, &[], true);
+        both_kinds(ctx, |ctx| de_words(ctx, &[], true));
         for len in 1..=maxlen {
             odometer(3, len, |idx| {
                 let take = ctx.mine(o);
@@ -530,7 +561,7 @@ fn body(ctx: &mut Ctx) {
                     return;
                 }
                 let w: Vec<u32> = idx.iter().map(|&i| syms[i]).collect();
-                de_words(ctx, &w, false);
+                both_kinds(ctx, |ctx| de_words(ctx, &w, false));
                 if o % 501 == 0 {
                     ctx.sample(|| format!("u32 token sequence {:x?} x 5 size hints x declared/undeclared length -> BigUint", w));
                 }
@@ -548,7 +579,7 @@ fn body(ctx: &mut Ctx) {
                     return;
                 }
                 let w: Vec<u32> = idx.iter().map(|&i| syms[i]).collect();
-                de_words(ctx, &w, true);
+                both_kinds(ctx, |ctx| de_words(ctx, &w, true));
                 if o % 101 == 0 {
                     ctx.sample(|| format!("(sign, {:x?}) for every i8 sign token x 5 size hints -> BigInt", w));
                 }
